@@ -95,6 +95,8 @@ def build_plan(case):
                     for nm in path:
                         obj = getattr(obj, nm)
                     d = {"i": "i", "o": "o", "oe": "o", "io": "io"}[leaf["pins"]["dir"]]
+                    if d == "io" and "n" in leaf["pins"]:
+                        d = "o"        # some vendors (iCE40) refuse bidirectional differential buffers: not this property's subject
                     buf = io.Buffer(d, obj)
                     m.submodules += buf
                     if d != "i":
